@@ -4,6 +4,7 @@ use crate::sim::{self, Config, Fault, Policy};
 use serde_json::{json, Value};
 use std::collections::BTreeMap;
 
+pub mod c01;
 pub mod c02;
 pub mod c03;
 pub mod c04;
@@ -85,7 +86,7 @@ pub trait Scenario: Sync {
 }
 
 pub fn registry() -> Vec<&'static dyn Scenario> {
-    vec![&c02::C02, &c03::C03, &c04::C04, &c05::C05, &c06::C06, &c07::C07, &c08::C08, &c09::C09, &c10::C10, &c12::C12, &c13::C13, &c14::C14, &c15::C15, &c16::C16, &c17::C17, &c19::C19, &c20::C20]
+    vec![&c01::C01, &c02::C02, &c03::C03, &c04::C04, &c05::C05, &c06::C06, &c07::C07, &c08::C08, &c09::C09, &c10::C10, &c12::C12, &c13::C13, &c14::C14, &c15::C15, &c16::C16, &c17::C17, &c19::C19, &c20::C20]
 }
 pub fn lookup(id: &str) -> Option<&'static dyn Scenario> {
     registry().into_iter().find(|s| s.id().eq_ignore_ascii_case(id))
